@@ -5,7 +5,7 @@
    is used up, Some RNil for nil, Some RCtx for the context's error, Some (RConn reason err) for
    *ConnectionError{Reason, Err}.  The error of a stream comes from the byte-level specification
    [Whatwg.interp gosse_conn]; [stream_error], [attempt_error] are written from the property text. *)
-From GoSse Require Import Base Whatwg Backoff Connect ConnectProofs ConnectStep ConnectTop ConnectFacts ConnectClass ConnectCtx RunRead.
+From GoSse Require Import Base Whatwg Backoff Connect ConnectProofs ConnectStep ConnectTop ConnectFacts ConnectClass ConnectCtx ConnectAgain RunRead.
 From GoSse.Gen Require Import Params.
 
 (* Connect never returns nil - whatever the streams contain, however they end, for every script
@@ -92,6 +92,23 @@ Theorem C11_context_error_iff :
   connect_run cfg script = (tr, Some r) ->
   (r = RCtx <-> ctx_observed cfg script (length (requests tr))).
 Proof. exact run_ctx_iff. Qed.
+
+(* ---- the same Connection connected again (see props/C10.v: [connect_runs], C10_again_call) -------- *)
+(* no call of a run returns nil *)
+Theorem C11_again_never_nil :
+  forall cfg scripts o, In o (connect_runs cfg scripts) -> snd o <> Some RNil.
+Proof. exact runs_never_nil. Qed.
+
+(* A Connect call on a Connection in ANY state [s] (every later call of a run is one, C10_again_call): the
+   classification of C11_classification, with the controller of the call starting anew and the ID the
+   Connection carries. *)
+Theorem C11_again_classification :
+  forall cfg b s script tr r,
+  connect_loop cfg b (call_state b s) script = (tr, Some r) ->
+  let n := length (requests tr) in
+  (forall k a, (S k < n)%nat -> nth_error (map st_attempt script) k = Some a -> attempt_error a <> None) /\
+  ((exists e, r = RConn RsReset e) \/ decided_by_last cfg b (bc_new b) (cs_last_id s) script n r).
+Proof. exact again_classification. Qed.
 
 (* ---- non-vacuity -------------------------------------------------------------------------------- *)
 Definition ex_cfg (max_retries : Z) : ccfg :=
